@@ -69,11 +69,11 @@ Qed.
 
 (* ---- tactics over the generated decision trees (never on let-names) *)
 (* the two normalising square roots are 1 on unit quaternions; done before zeta so that only they are visited *)
-(* lazymatch: commit to the first sqrt found (context matching sees through the lets, and backtracking over every
-   leaf's sqrt with a failing ring call costs 15 s) *)
+(* only the normalising divisions  _ / sqrt e  are visited (context matching sees through the lets; lazymatch: no
+   backtracking over every leaf's sqrt with a failing ring call) *)
 Ltac unit_norms :=
   repeat lazymatch goal with
-  | |- context [sqrt ?e] => let H := fresh in assert (H : e = 1) by hring; rewrite H; clear H; rewrite sqrt_1
+  | |- context [Rdiv _ (sqrt ?e)] => let H := fresh in assert (H : e = 1) by hring; rewrite H; clear H; rewrite sqrt_1
   end;
   unfold Rdiv; rewrite ?Rinv_1, ?Rmult_1_r; cbv zeta.
 (* rewrite the radicands |p -+ q|^2 to 2 -+ 2 p.q *)
@@ -92,7 +92,9 @@ Ltac canon_dot a b c d w x y z :=
   | |- context [Rabs ?X] =>
       lazymatch X with
       | dot4 _ _ _ _ _ _ _ _ => fail
-      | _ => replace X with (dot4 a b c d w x y z) by (unfold dot4; ring)
+      | - dot4 _ _ _ _ _ _ _ _ => rewrite Rabs_Ropp
+      | _ => first [ replace X with (dot4 a b c d w x y z) by (unfold dot4; ring)
+                   | replace X with (- dot4 a b c d w x y z) by (unfold dot4; ring) ]
       end
   end.
 Ltac shortcut_dead a b c d w x y z :=
@@ -166,15 +168,17 @@ Proof.
     unit_norms; repeat destr_dec; zero_leaf.
 Qed.
 
-(* ---- N-row branch (rows (p,q) and (q,p)): no shortcut, the formula on every row, for all unit quaternions *)
+(* ---- N-row branch with N = 4, rows (p,q), (q,p), (-p,q), (q,-p): no shortcut, the formula on every row (the same
+   value on all four), for all unit quaternions *)
+Definition four (v : R) : list R := [v; v; v; v].
 Lemma qeip_batch_spec a b c d w x y z : unit4 a b c d -> unit4 w x y z ->
-  C18_qeip_batch_R a b c d w x y z = Val [1 - Rabs (dot4 a b c d w x y z); 1 - Rabs (dot4 a b c d w x y z)].
+  C18_qeip_batch_R a b c d w x y z = Val (four (1 - Rabs (dot4 a b c d w x y z))).
 Proof.
   intros Hp Hq. unfold unit4 in Hp, Hq. orient_unit. unfold C18_qeip_batch_R. unit_norms.
   canon_dot a b c d w x y z. reflexivity.
 Qed.
 Lemma qcip_batch_spec a b c d w x y z : unit4 a b c d -> unit4 w x y z ->
-  C18_qcip_batch_R a b c d w x y z = Val [acos (Rabs (dot4 a b c d w x y z)); acos (Rabs (dot4 a b c d w x y z))].
+  C18_qcip_batch_R a b c d w x y z = Val (four (acos (Rabs (dot4 a b c d w x y z)))).
 Proof.
   intros Hp Hq. unfold unit4 in Hp, Hq. orient_unit. unfold C18_qcip_batch_R. unit_norms.
   canon_dot a b c d w x y z. reflexivity.
@@ -182,8 +186,7 @@ Qed.
 Lemma clip_inert u : -1 <= u <= 1 -> Rmin (Rmax u (-1)) 1 = u.
 Proof. intros [H1 H2]. rewrite Rmax_left by lra. rewrite Rmin_left by lra. reflexivity. Qed.
 Lemma qad_batch_spec a b c d w x y z : unit4 a b c d -> unit4 w x y z ->
-  C18_qad_batch_R a b c d w x y z = Val [acos (2 * (dot4 a b c d w x y z * dot4 a b c d w x y z) - 1);
-                                         acos (2 * (dot4 a b c d w x y z * dot4 a b c d w x y z) - 1)].
+  C18_qad_batch_R a b c d w x y z = Val (four (acos (2 * (dot4 a b c d w x y z * dot4 a b c d w x y z) - 1))).
 Proof.
   intros Hp Hq. pose proof (unit4_dot_le1 _ _ _ _ _ _ _ _ Hp Hq) as B. apply Rabs_le_inv in B.
   unfold unit4 in Hp, Hq. orient_unit. unfold C18_qad_batch_R. unit_norms.
@@ -197,7 +200,7 @@ Proof.
   rewrite clip_inert by nra. reflexivity.
 Qed.
 Lemma qdist_batch_spec a b c d w x y z : unit4 a b c d -> unit4 w x y z ->
-  C18_qdist_batch_R a b c d w x y z = Val [sqrt (2 - 2 * Rabs (dot4 a b c d w x y z)); sqrt (2 - 2 * Rabs (dot4 a b c d w x y z))].
+  C18_qdist_batch_R a b c d w x y z = Val (four (sqrt (2 - 2 * Rabs (dot4 a b c d w x y z)))).
 Proof.
   intros Hp Hq. pose proof (unit4_dot_le1 _ _ _ _ _ _ _ _ Hp Hq) as B.
   unfold unit4 in Hp, Hq. orient_unit. unfold C18_qdist_batch_R. unit_norms. canon_sqrt a b c d w x y z.
@@ -218,10 +221,10 @@ Proof.
 Qed.
 Lemma quat_batch_closed_t a b c d w x y z t : unit4 a b c d -> unit4 w x y z -> 0 <= t <= PI ->
   Rabs (dot4 a b c d w x y z) = cos (t/2) ->
-  C18_qdist_batch_R a b c d w x y z = Val [sqrt (2 * (1 - cos (t/2))); sqrt (2 * (1 - cos (t/2)))] /\
-  C18_qeip_batch_R a b c d w x y z = Val [1 - cos (t/2); 1 - cos (t/2)] /\
-  C18_qcip_batch_R a b c d w x y z = Val [t/2; t/2] /\ C18_qad_batch_R a b c d w x y z = Val [t; t].
+  C18_qdist_batch_R a b c d w x y z = Val (four (sqrt (2 * (1 - cos (t/2))))) /\
+  C18_qeip_batch_R a b c d w x y z = Val (four (1 - cos (t/2))) /\
+  C18_qcip_batch_R a b c d w x y z = Val (four (t/2)) /\ C18_qad_batch_R a b c d w x y z = Val (four t).
 Proof.
   intros Hp Hq Ht Hd. rewrite qdist_batch_spec, qeip_batch_spec, qcip_batch_spec, qad_batch_spec by assumption.
-  rewrite (sq_of_abs _ _ Hd), Hd. rewrite acos_half, acos_double by exact Ht. repeat split. val_eq; f_equal; ring.
+  rewrite (sq_of_abs _ _ Hd), Hd. rewrite acos_half, acos_double by exact Ht. repeat split. unfold four. val_eq; f_equal; ring.
 Qed.
